@@ -219,6 +219,8 @@ def process_pyro_request(environ, path, parameters, start_response):
     object_name, method = matches.groups()
     if pyro_app.gateway_key:
         gateway_key = environ.get("HTTP_X_PYRO_GATEWAY_KEY", "") or parameters.get("$key", "")
+        if not isinstance(gateway_key, str):
+            gateway_key = ""    # the $key parameter was given more than once: that is not the key
         gateway_key = gateway_key.encode("utf-8")
         if gateway_key != pyro_app.gateway_key:
             start_response('403 Forbidden', cors_response_header([('Content-Type', 'text/plain')], pyro_app.cors))
